@@ -237,3 +237,73 @@ Proof.
     + exact (Hna s o (proj1 Hrec) (proj2 Hrec)).
 Qed.
 End Quiescent.
+
+(* ---------- C03, last clause: the run after a run writes nothing ---------- *)
+Section SecondRun.
+Variable rank : ip -> N.
+
+(* what one run of convergeBalancer leaves is a fixpoint of the next run, unless a
+   PreferDualStack Service with one address can still gain the other family *)
+Theorem second_run_fixpoint a s o k v ok k2 v2 ok2 :
+  minv a -> names_unique (s_pools a) -> pools_disjoint (by_name (s_pools a)) -> o_want o = WNone ->
+  converge rank a s o k = CR v ok -> cv_status v <> [] ->
+  additional_applies (o_req o) (cv_status v) = false ->
+  converge rank (cv_mem v) s (with_status o (cv_status v) (cv_annot v)) k2 = CR v2 ok2 ->
+  ok2 = true /\ cv_status v2 = cv_status v /\ cv_annot v2 = cv_annot v /\
+  same_ips (ips_of (cv_mem v2) s) (cv_status v).
+Proof.
+  intros Hm Hnu Hdj Hw EC Hst Hna EC2.
+  set (o' := with_status o (cv_status v) (cv_annot v)) in *.
+  destruct (converge_frame _ _ _ _ _ _ _ EC) as [_ Hpools].
+  destruct (converge_settles rank a s o k v ok Hm Hnu Hdj Hw EC) as [[_ He]|Hg]; [cbn in He; congruence|].
+  fold o' in Hg.
+  assert (HI : Inv (cv_mem v)) by (eapply converge_Inv; [exact EC|exact (proj1 Hm)]).
+  assert (HPC : PoolCoh (cv_mem v)) by (eapply converge_PoolCoh; [exact EC|exact (proj2 Hm)]).
+  rewrite <- Hpools in Hg.
+  pose proof (good_admissible rank (cv_mem v) s o' HI Hg) as (Hlb & Hps & Hcl & Hrq & Hst' & Hfam & a' & Has & Hwp & Hwant).
+  assert (Hok : ok = true).
+  { destruct ok; [reflexivity|]. destruct (converge_fail_status rank _ _ _ _ _ EC); congruence. }
+  subst ok.
+  destruct (converge_ok_annot rank s _ _ _ _ EC Hlb) as (_ & Han & _).
+  pose proof (converge_exact rank s a o k v true Hw EC) as Hex.
+  assert (Hann : o_annot o' = pool_of a' s).
+  { cbn [o' with_status o_annot]. rewrite Han.
+    pose proof Has as Has'. apply assign_ok_inv in Has'. destruct Has' as (p & Hck & _ & ->).
+    apply assign_check_spec in Hck. destruct Hck as (Hpf & _).
+    unfold pool_of at 2. rewrite get_alloc_do_assign_same. cbn [option_map a_pool].
+    unfold pool_of, ips_of in *. destruct (get_alloc (cv_mem v) s) as [al|] eqn:Hg'.
+    - cbn [option_map]. f_equal.
+      destruct (HPC (s, al)) as (q & Hq & Hn); [apply get_alloc_In; [exact (proj1 HI)|exact Hg']|].
+      cbn [snd] in Hq, Hn. rewrite Hex in Hq. cbn [o' with_status o_status] in Hpf. rewrite Hpf in Hq. injection Hq as <-. congruence.
+    - exfalso. apply Hst. symmetry. exact Hex. }
+  destruct (converged_fixpoint_gen rank (cv_mem v) s o' k2 v2 ok2 a' Hlb Hps Hcl Hrq Hst' Hfam Has Hwp Hwant Hna
+              (or_introl Hw) Hann EC2) as (H1 & H2 & H3 & H4).
+  split; [exact H1|]. split; [exact H2|]. split; [exact H3|].
+  rewrite H4. apply assign_ok_holds in Has. destruct Has as (_ & Hips & _). rewrite Hips. apply same_ips_refl.
+Qed.
+
+(* SetBalancer level: the call after a call writes nothing and asks for nothing *)
+Theorem second_call_writes_nothing c s o k oc k2 oc2 :
+  c_have_pools c = true -> mem_inv c -> pools_wf c -> o_want o = WNone ->
+  set_balancer rank c s (Some o) k = Some oc ->
+  forall st an, (oc_write oc = Some (st, an) \/ (oc_write oc = None /\ st = o_status o /\ an = o_annot o)) ->
+  st <> [] -> additional_applies (o_req o) st = false ->
+  set_balancer rank (oc_state oc) s (Some (with_status o st an)) k2 = Some oc2 ->
+  oc_write oc2 = None.
+Proof.
+  intros Hp Hm [Hnu Hdj] Hw ES st an Hwr Hst Hna ES2.
+  destruct (set_balancer_mem rank _ _ _ _ _ ES Hp) as (v & ok & EC & Hmem & Hwrite).
+  assert (Est : st = cv_status v /\ an = cv_annot v).
+  { destruct Hwr as [Hwr|(Hwr & -> & ->)]; rewrite Hwr in Hwrite; [exact Hwrite|destruct Hwrite; auto]. }
+  destruct Est as [-> ->].
+  pose proof (set_balancer_spec rank _ _ _ _ _ ES) as (_ & Hps & Hhp & _).
+  destruct (set_balancer_mem rank _ _ _ _ _ ES2 (Hhp Hp)) as (v2 & ok2 & EC2 & _ & Hwrite2).
+  rewrite Hmem in EC2.
+  destruct (second_run_fixpoint (c_mem c) s o k v ok k2 v2 ok2 Hm Hnu Hdj Hw EC Hst Hna EC2) as (_ & H2 & H3 & _).
+  revert ES2. unfold set_balancer. rewrite (Hhp Hp). cbn [negb]. rewrite Hmem, EC2, H2, H3.
+  cbn [with_status o_status o_annot].
+  assert (E1 : ips_eqb (cv_status v) (cv_status v) = true) by (apply ips_eqb_eq; reflexivity).
+  assert (E2 : opt_pool_eqb (cv_annot v) (cv_annot v) = true) by (destruct (cv_annot v); cbn; [apply N.eqb_refl|reflexivity]).
+  rewrite E1, E2. cbn [negb orb]. intros [= <-]. reflexivity.
+Qed.
+End SecondRun.
